@@ -183,13 +183,21 @@ func specshareComponent(g *G, n int, opts map[string]string) *Out {
 			o.count("compile-error")
 			continue
 		}
+		// the walks "alone" run on a second compilation of the same specification, so that the shared
+		// object is cold (never walked, never matched) when the concurrent walks start: a lazily
+		// initialised cache or any other first-use write happens under contention
+		specAlone, err := c.Spec.build()
+		if err != nil {
+			o.count("compile-error")
+			continue
+		}
 		before := snapshot(spec, nil, nil, nil, nil)
 		props := make([]core.StepProps, len(c.Walks))
 		for i, w := range c.Walks {
 			if i%2 == 0 {
 				props[i] = core.StepProps{"mid": fmt.Sprintf("m%d", i), "cfg": map[string]interface{}{"k": "v"}}
 			}
-			w.alone = plainWalk(spec, w.State.core(), deepCopy(w.Msgs, nil).([]interface{}), &core.Control{Limit: w.Limit}, props[i])
+			w.alone = plainWalk(specAlone, w.State.core(), deepCopy(w.Msgs, nil).([]interface{}), &core.Control{Limit: w.Limit}, props[i])
 			w.Alone = w.alone.W
 			w.Stable = true
 		}
